@@ -67,7 +67,7 @@ theorem inv_ser (hP : P.Layout) (w : World) (g : Ghost ι) (hi : Inv P hf w g) (
       · simp only [he, if_true]; exact Covers.nil _ _ _ _
       · have he' : f.isEmpty = false := by simpa using he
         simp only [he', Bool.false_eq_true, if_false]
-        have hcap : 0 < f.capBits := hi.2 v f hv
+        have hcap : 0 < f.capBits := (hi.2 v f hv).1
         apply ((covers_under_of_inv P hf w g hi v f hv f.cfg).sub (seenBy_sub g w v f)).mono hcap
         intro j hj hb
         have : keyOff P (.mem m) = 256 := by simp [keyOff, hP.2]
@@ -99,13 +99,14 @@ theorem inv_wrap (hP : P.Layout) (w : World) (g : Ghost ι) (hi : Inv P hf w g) 
     | full cap nh seed nbs nl =>
       obtain ⟨hflag, hcapeq, hcap0, -, -, -, -, hlen⟩ := parseImage_full hp
       have hcap : 0 < cap := Nat.pos_of_ne_zero hcap0
+      have hcap2 : 0 < cap ∧ cap % 64 = 0 := ⟨hcap, by rw [hcapeq]; omega⟩
       cases k with
       | deser =>
         by_cases hl : b.len - 32 < (nl * 8) % 2 ^ 32
         · simp only [opWrap, gstep, hm, hp, hl, if_true]; cases w.filters v <;> exact hi
         · simp only [opWrap, gstep, hm, hp, hl, if_false]
           simp only [setFilter_filters_same, deserFilter, hbv, hflag, Bool.false_eq_true, if_false]
-          refine ⟨cover_set hi.1 _ _ _ (fun key hk => keyVal_setFilter_ne_own _ _ _ _ hk) ?_, capPos_setFilter hi.2 _ _ hcap⟩
+          refine ⟨cover_set hi.1 _ _ _ (fun key hk => keyVal_setFilter_ne_own _ _ _ _ hk) ?_, capPos_setFilter hi.2 _ _ hcap2⟩
           rw [keyVal_setFilter_own]
           simp only [Filter.cfg]
           -- items recorded for the block under this configuration are covered by the copied bits
@@ -129,12 +130,12 @@ theorem inv_wrap (hP : P.Layout) (w : World) (g : Ghost ι) (hi : Inv P hf w g) 
         · simp only [opWrap, gstep, hm, hp, hl, if_true]; cases w.filters v <;> exact hi
         · simp only [opWrap, gstep, hm, hp, hl, if_false]
           simp only [setFilter_filters_same, wrapFilter]
-          exact ⟨cover_set hi.1 _ _ _ (fun key hk => keyVal_setFilter_ne_own _ _ _ _ hk) (Covers.nil _ _ _ _), capPos_setFilter hi.2 _ _ hcap⟩
+          exact ⟨cover_set hi.1 _ _ _ (fun key hk => keyVal_setFilter_ne_own _ _ _ _ hk) (Covers.nil _ _ _ _), capPos_setFilter hi.2 _ _ hcap2⟩
       | wwrap =>
         by_cases hl : b.len < 32 + cap / 8
         · simp only [opWrap, gstep, hm, hp, hl, if_true]; cases w.filters v <;> exact hi
         · simp only [opWrap, gstep, hm, hp, hl, if_false]
           simp only [setFilter_filters_same, wrapFilter]
-          exact ⟨cover_set hi.1 _ _ _ (fun key hk => keyVal_setFilter_ne_own _ _ _ _ hk) (Covers.nil _ _ _ _), capPos_setFilter hi.2 _ _ hcap⟩
+          exact ⟨cover_set hi.1 _ _ _ (fun key hk => keyVal_setFilter_ne_own _ _ _ _ hk) (Covers.nil _ _ _ _), capPos_setFilter hi.2 _ _ hcap2⟩
 
 end DS.Bloom
